@@ -676,5 +676,46 @@ inline ClassAdapter<BOX> xbox_adapter(const std::string& name) {
   return A;
 }
 
+// ---------------------------------------------------------------------------------------------------
+// (d) further weakly-relational shapes: the generic domain alphabet + constraints whose bounds sit at the limits
+// of the coefficient type (largest finite value, overflow to +infinity, rounding, denormals)
+template <class T> struct ShapeBounds {      // bounded integer coefficient types
+  static std::vector<std::pair<std::string, Coefficient> > get() {
+    std::vector<std::pair<std::string, Coefficient> > v; typedef std::numeric_limits<T> L;
+    v.push_back(std::make_pair("max-1", Coefficient((long)L::max() - 1))); v.push_back(std::make_pair("max", Coefficient((long)L::max())));
+    v.push_back(std::make_pair("max/2+1", Coefficient((long)L::max() / 2 + 1))); return v; }
+};
+template <class F> inline std::vector<std::pair<std::string, Coefficient> > float_shape_bounds() {
+  std::vector<std::pair<std::string, Coefficient> > v; Coefficient h(1); h <<= 1030; v.push_back(std::make_pair("2^1030", h));
+  Coefficient m(1); m <<= (std::numeric_limits<F>::max_exponent - 1); v.push_back(std::make_pair("2^(max_exponent-1)", m));
+  Coefficient o(1); o <<= 60; o += 1; v.push_back(std::make_pair("2^60+1", o)); return v; }
+template <> struct ShapeBounds<double> { static std::vector<std::pair<std::string, Coefficient> > get() { return float_shape_bounds<double>(); } };
+template <> struct ShapeBounds<float> { static std::vector<std::pair<std::string, Coefficient> > get() { return float_shape_bounds<float>(); } };
+template <> struct ShapeBounds<mpz_class> { static std::vector<std::pair<std::string, Coefficient> > get() {
+  std::vector<std::pair<std::string, Coefficient> > v; Coefficient h(1); h <<= 70; h += 3; v.push_back(std::make_pair("2^70+3", h)); return v; } };
+template <> struct ShapeBounds<mpq_class> { static std::vector<std::pair<std::string, Coefficient> > get() { return ShapeBounds<mpz_class>::get(); } };
+
+template <class SH>
+inline ClassAdapter<SH> xshape_adapter(const std::string& name) {
+  typedef SH D; typedef Mut<D> M; typedef typename SH::coefficient_type_base T;
+  ClassAdapter<D> A = domain_adapter<D>(name);
+  Variable x(0), y(1);
+  std::vector<std::pair<std::string, Coefficient> > bs = ShapeBounds<T>::get();
+  for (size_t k = 0; k < bs.size(); ++k) {
+    Coefficient b = bs[k].second; std::string n = bs[k].first;
+    VX_MUT("refine_with_constraint(A<=" + n + ")", [x, b](D& d, const D*) { d.refine_with_constraint(x <= b); return std::string(); });
+    VX_MUT("refine_with_constraint(A-B>=-" + n + ")", [x, y, b](D& d, const D*) { d.refine_with_constraint(x - y >= -b); return std::string(); });
+    if (k == 0) VX_MUT("add_constraint(B>=-" + n + ")", [y, b](D& d, const D*) { d.add_constraint(y >= -b); return std::string(); });
+  }
+  Coefficient big(1); big <<= 1070;
+  VX_MUT("refine_with_constraint(3A<=1)", [x](D& d, const D*) { d.refine_with_constraint(3 * x <= 1); return std::string(); });
+  VX_MUT("refine_with_constraint(2^1070*A<=1)", [x, big](D& d, const D*) { d.refine_with_constraint(big * x <= 1); return std::string(); });
+  VX_MUT("refine_with_constraint(3A-3B<=-1)", [x, y](D& d, const D*) { d.refine_with_constraint(3 * x - 3 * y <= -1); return std::string(); });
+  VX_MUT("affine_image(A,A+" + bs[0].first + ")", [x, bs](D& d, const D*) { d.affine_image(x, x + bs[0].second); return std::string(); });
+  VX_MUT("affine_image(A,-A)", [x](D& d, const D*) { d.affine_image(x, -x); return std::string(); });
+  VX_MUT("affine_image(B,B,3)", [y](D& d, const D*) { d.affine_image(y, Linear_Expression(y), 3); return std::string(); });
+  return A;
+}
+
 } // namespace vf
 #endif
